@@ -79,7 +79,7 @@ def run(ctx):
                     gbad.append("%s (corpus/c20/a/a.go:%d-%d%s) is reported: %s" % (fn, lo, hi, tag, hit(lo, hi)[0]["message"][:200]))
     finally:
         shutil.rmtree(tscratch, ignore_errors=True)
-    ctx.obligation("Go-source regression programs of the repaired findings F27-F29, F42-F45 (corpus/c20), as written and under the four textures (empty first line, %-file name, //line directive, CRLF): every Bad* function reported, no Ok* function reported", not gbad)
+    ctx.obligation("Go-source regression programs of the repaired findings F27-F29, F42-F45 (corpus/c20), as written and under the five textures (empty first line, %-file name, //line directive, CRLF, redundant parentheses): every Bad* function reported, no Ok* function reported", not gbad)
     for m in gbad[:3]:
         ctx.violation("gocorpus", "C20 fails on the real tool: %s\nreplay: bin/harness analyze -dir corpus/c20\n" % m)
 
